@@ -11,7 +11,8 @@
    owns the connection (peer script, operation counter, TLS layer), the session state bits,
    the scripted callback values and the trace.  What the library does with an error is
    fixed by the constructor used: [Wr] is a write whose error is returned, [WrU] a write
-   whose error is dropped (the deferred Close flush of sasl.go's <success/>), [Rd] a token
+   whose error is dropped (the deferred Close flush of a partly written features list; until
+   its repair also that of sasl.go's <success/>), [Rd] a token
    read (its error is always returned), [Ctx] an explicit ctx.Done() test, [Call] a callback
    whose error is returned after an optional clean-up program.
 
@@ -95,19 +96,20 @@ Record config := mkCfg {
 (* ------------------------------------------------------------------ scripted values *)
 
 Inductive serr := SNone | SAuthn | SOther.
+Inductive berr := BOk | BStanza | BErr.   (* bind callback: jid / stanza error (answered, then returned) / other error *)
 
 Inductive sval :=
 | VChoice (f : nat)                           (* initiator: the feature picked from the cache (map order) *)
 | VOut (mask : N) (restart : bool) (err : bool)   (* outcome of a custom feature's Negotiate *)
 | VStep (more : bool) (err : serr)            (* one Step of the SASL mechanism *)
-| VBind (err : bool).                         (* the bind callback of the receiving side *)
+| VBind (err : berr).                         (* the bind callback of the receiving side *)
 
 Definition sval_err (v : sval) : bool :=
   match v with
   | VChoice _ => false
   | VOut _ _ e => e
   | VStep _ e => match e with SNone => false | _ => true end
-  | VBind e => e
+  | VBind e => match e with BOk => false | _ => true end
   end.
 
 (* ------------------------------------------------------------------ programs *)
@@ -221,7 +223,8 @@ Record world := mkW {
   w_tls : list sitem;       (* the peer's stream on the TLS layer (before the switch) *)
   w_tlslayer : bool;
   w_hs : bool;              (* TLS handshake still pending *)
-  w_wdead : bool;           (* the TLS connection has a permanent write error *)
+  w_wdead : bool;           (* unused since the repair of sasl.go: a failed write now always ends the run, so
+                               crypto/tls's permanent write error can no longer be observed *)
   w_bits : N;
   w_calls : list sval;
   w_trace : list event      (* newest first *)
@@ -235,12 +238,12 @@ Definition set_trace (w : world) (e : event) : world :=
 
 (* One connection operation: its index, whether it succeeds. *)
 Definition op_ok (pl : plan) (w : world) (is_write : bool) : bool :=
-  negb (p_fail pl (w_ops w)) && negb (w_hs w && negb (p_hs_ok pl)) && negb (is_write && w_wdead w).
+  negb (p_fail pl (w_ops w)) && negb (w_hs w && negb (p_hs_ok pl)).
 
 Definition do_write (pl : plan) (s : wsite) (w : world) : bool * world :=
   let ok := op_ok pl w true in
   (ok, mkW (S (w_ops w)) (w_script w) (w_tls w) (w_tlslayer w) false
-           (w_wdead w || (w_tlslayer w && negb ok)) (w_bits w) (w_calls w) (EWrite s ok :: w_trace w)).
+           (w_wdead w) (w_bits w) (w_calls w) (EWrite s ok :: w_trace w)).
 
 Definition do_read_op (pl : plan) (w : world) (rest : list sitem) (avail : bool) : bool * world :=
   let ok := op_ok pl w false && avail in
@@ -430,7 +433,7 @@ Fixpoint sasl_server_loop (n : nat) (selected : bool) : prog unit :=
 
 Definition sasl_server (n : nat) : prog outcome :=
   sasl_server_loop n false ;;;
-  wru WSuccess ;;;          (* written by xmlstream.Copy, flushed only by the deferred w.Close() *)
+  wr WSuccess ;;;           (* as repaired: flushed, and the flush error returned, before Authn is reported *)
   Ret (st_Authn, RSSame).
 
 Definition bind_client (n : nat) : prog outcome :=
@@ -446,8 +449,8 @@ Definition bind_server (n : nat) : prog outcome :=
     match t with
     | Open (KIq _) =>
         skip n 0 ;;;
-        v <- call ;;
-        match v with VBind _ => wr WBindRes ;;; Ret (st_Ready, RSNone) | _ => Stuck end
+        Call (fun v => match v with VBind _ => wr WBindRes ;;; Ret (st_Ready, RSNone) | _ => Stuck end)
+             (fun v => match v with VBind BStanza => wr WBindRes ;;; Fail | _ => Fail end)
     | _ => Fail
     end).
 
@@ -567,11 +570,13 @@ Definition run_feature (n : nat) (recv : bool) (f : nat) (ft : feature) (pre : l
   or_bits (fst o) ;;;
   Ret o.
 
-Fixpoint init_loop (n : nat) (cfg : config) (l : flist) (force : option (nat * feature))
+(* k bounds the iterations (each negotiates a feature of the cache that was not negotiated
+   before, so the size of the cache + 1 suffices); n is the fuel of the loops inside *)
+Fixpoint init_loop (k n : nat) (cfg : config) (l : flist) (force : option (nat * feature))
                    (negotiated : list nat) : prog outcome :=
-  match n with
+  match k with
   | O => OutOfFuel
-  | S n' =>
+  | S k' =>
       bits <- get_bits ;;
       pick <- match force with
               | Some (i, ft) =>
@@ -601,9 +606,9 @@ Fixpoint init_loop (n : nat) (cfg : config) (l : flist) (force : option (nat * f
       match pick with
       | None => Ret (st_Ready, RSNone)
       | Some (f, ft, req) =>
-          o <- run_feature n' false f ft [] ;;
+          o <- run_feature n false f ft [] ;;
           match snd o with
-          | RSNone => if req then Ret (after_loop l o) else init_loop n' cfg l force (f :: negotiated)
+          | RSNone => if req then Ret (after_loop l o) else init_loop k' n cfg l force (f :: negotiated)
           | _ => Ret o
           end
       end
@@ -624,12 +629,12 @@ Definition features_initiator (n : nat) (cfg : config) (first : bool) : prog out
           | None => None
           end in
         match force with
-        | Some _ => init_loop n cfg l force []
+        | Some _ => init_loop (S (length (fl_cache l))) n cfg l force []
         | None =>
             if fl_total l =? 0 then Ret (st_Ready, RSNone)
             else match fl_cache l with
                  | [] => Fail
-                 | _ => init_loop n cfg l None []
+                 | _ => init_loop (S (length (fl_cache l))) n cfg l None []
                  end
         end
     | _ => Fail
@@ -737,6 +742,7 @@ Fixpoint session (n m : nat) (cfg : config) (ns : nstate) : prog unit :=
   | O => OutOfFuel
   | S m' =>
       r <- match c_neg cfg with NStd => std_call n cfg ns | NComp => comp_call n end ;;
+      ctx ;;;   (* as repaired: ctx.Err() is tested after every call of the negotiator *)
       Restart (snd (fst r)) (or_bits (fst (fst r)) ;;; session n m' cfg (snd r))
   end.
 
@@ -750,10 +756,19 @@ Definition init_world (bits : N) (clear tls : list sitem) (calls : list sval) : 
 
 Definition fuel_of (clear tls : list sitem) : nat := script_len clear + script_len tls + 4.
 
+(* negotiateSession, as repaired: a session that is returned with an error has the Ready bit
+   cleared (feature negotiation may have set it before the failing step) *)
+Definition clear_ready (w : world) : world :=
+  mkW (w_ops w) (w_script w) (w_tls w) (w_tlslayer w) (w_hs w) (w_wdead w)
+      (N.ldiff (w_bits w) st_Ready) (w_calls w) (w_trace w).
+
+Definition finish {A} (x : res A * world) : res A * world :=
+  match fst x with ROk _ => x | _ => (fst x, clear_ready (snd x)) end.
+
 Definition run (cfg : config) (pl : plan) (bits : N) (clear tls : list sitem) (calls : list sval)
   : res unit * world :=
   let n := fuel_of clear tls in
-  interp pl (session n n cfg (mkNS true false)) (init_world bits clear tls calls).
+  finish (interp pl (session n n cfg (mkNS true false)) (init_world bits clear tls calls)).
 
 (* ------------------------------------------------------------------ cases written by the harness *)
 
@@ -771,12 +786,15 @@ Definition elt_eqb (a b : elt) : bool :=
 Definition serr_eqb (a b : serr) : bool :=
   match a, b with SNone, SNone | SAuthn, SAuthn | SOther, SOther => true | _, _ => false end.
 
+Definition berr_eqb (a b : berr) : bool :=
+  match a, b with BOk, BOk | BStanza, BStanza | BErr, BErr => true | _, _ => false end.
+
 Definition sval_eqb (a b : sval) : bool :=
   match a, b with
   | VChoice f, VChoice g => f =? g
   | VOut m r e, VOut m' r' e' => N.eqb m m' && bool_eqb r r' && bool_eqb e e'
   | VStep m e, VStep m' e' => bool_eqb m m' && serr_eqb e e'
-  | VBind e, VBind e' => bool_eqb e e'
+  | VBind e, VBind e' => berr_eqb e e'
   | _, _ => false
   end.
 
